@@ -72,7 +72,7 @@ pub fn gen_group(rng: &mut Rng, n_files: usize, cfg_depth: usize, odd_names: boo
 pub fn build(g: &GenGroup, dev: bool) -> TmplGroup {
     let mut tg = if dev { TmplGroup::new_dev() } else { TmplGroup::new() };
     for (p, s) in &g.files {
-        tg.add_tmpl(p, s);
+        { crate::util::note_input(&*s); tg.add_tmpl(p, s) };
     }
     for (p, s) in &g.scripts {
         tg.add_script(p, s);
@@ -139,7 +139,7 @@ pub fn artefacts(tier: &str, seed: u64, out: &mut Out) {
     ];
     for (i, s) in bad.iter().enumerate() {
         let mut tg = TmplGroup::new();
-        tg.add_tmpl("bad", s);
+        { crate::util::note_input(&*s); tg.add_tmpl("bad", s) };
         for (kind, src) in all_artefacts(&tg, &["bad".to_string()]) {
             emit(out, &format!("bad{}", i), &kind, &src, Some(s));
         }
@@ -158,9 +158,29 @@ pub fn artefacts(tier: &str, seed: u64, out: &mut Out) {
             }
         }
         let mut tg = TmplGroup::new();
-        tg.add_tmpl("lit", &s);
+        { crate::util::note_input(&*s); tg.add_tmpl("lit", &s) };
         for (kind, src) in all_artefacts(&tg, &["lit".to_string()]) {
             emit(out, &format!("lit{}", i), &kind, &src, Some(&s));
+        }
+    }
+    // the operator matrix: every operator x operand position x child shape (depth 2), each expression in a text, an
+    // attribute, a list and a template-data position, 40 expressions per template (token gluing such as `a++b`, `a--b`,
+    // `a- -b`, `typeof typeof`, `1.x` shows up as a syntax error of the artefact)
+    let all = crate::gen::exhaustive_depth2();
+    for (ci, chunk) in all.chunks(40).enumerate() {
+        let mut s = String::from("<template name=\"t\">t</template>");
+        for e in chunk {
+            let mut no_extra = || false;
+            let t = e.wxml(&mut no_extra);
+            if t.contains('"') {
+                continue;
+            }
+            s.push_str(&format!("<v a=\"{{{{ {} }}}}\" b=\"x{{{{ {} }}}}y\">{{{{ {} }}}}</v><block wx:for=\"{{{{ {} }}}}\">i</block><template is=\"t\" data=\"{{{{ k: {} }}}}\"/>\n", t, t, t, t, t));
+        }
+        let mut tg = TmplGroup::new();
+        { crate::util::note_input(&*s); tg.add_tmpl("ops", &s) };
+        for (kind, src) in all_artefacts(&tg, &["ops".to_string()]) {
+            emit(out, &format!("ops{}", ci), &kind, &src, Some(&s));
         }
     }
     // size-scaled: many declarations in one template (each node declares top-scope identifiers)
@@ -171,7 +191,7 @@ pub fn artefacts(tier: &str, seed: u64, out: &mut Out) {
             s.push_str(&format!("<v wx:if=\"{{{{a{}}}}}\" b=\"{{{{c[{}]}}}}\">x</v>", i % 7, i % 3));
         }
         let mut tg = TmplGroup::new();
-        tg.add_tmpl("big", &s);
+        { crate::util::note_input(&*s); tg.add_tmpl("big", &s) };
         let js = tg.get_tmpl_gen_object("big").unwrap_or_default();
         emit(out, &format!("big{}", n), "tmpl_gen_object:big", &js, None);
     }
